@@ -54,6 +54,11 @@ extern int mpt_fpoint_set(MPT_STRUCT(fpoint) *pt, MPT_INTERFACE(convertable) *sr
 			return MPT_ERROR(BadType);
 		}
 	}
+	/* source without value */
+	else if (!ret || !it) {
+		*pt = tmp;
+		return 0;
+	}
 	else {
 		/* first coordinate */
 		if ((ret = mpt_iterator_consume(it, 'f', &tmp.x)) < 0) {
